@@ -50,6 +50,12 @@ class Lower:
             if nm in self.env:
                 return self.env[nm]
             return sp.Symbol(nm)
+        if k in ("CXXStaticCastExpr", "CXXFunctionalCastExpr", "CXXReinterpretCastExpr", "CXXConstCastExpr", "ExprWithCleanups",
+                 "MaterializeTemporaryExpr", "CXXBindTemporaryExpr") and inner:
+            return self.expr(inner[-1])
+        if k == "MemberExpr" and inner and cfront.strip(inner[0]).get("kind") == "CXXThisExpr":
+            nm = n["name"]
+            return self.env.get(nm, sp.Symbol(nm))
         if k == "MemberExpr":
             base = self.expr(inner[0])
             return sp.Symbol("%s.%s" % (base, n["name"]))
